@@ -269,8 +269,55 @@ def json_number_paths(ctx):
     return out
 
 
+def calendar_view(ctx):
+    """PER buckets: a bucket start is the first instant of the hour / day / week / month / year of the event *in the
+    configured timezone*: every calendar component has to be read from the zoned value (local view) and the start has
+    to be localised in the same zone"""
+    r = oblig.Result("B-5", "CalendarTimeBucketer::bucket_{hour,day,week,month,year}: the date the bucket start is built from is the "
+                            "local date of the zoned instant (DateTime::date_naive / naive_local), never its UTC view (naive_utc), "
+                            "and the start is placed with and_local_timezone(dt.timezone()) - UTC and local date differ within the "
+                            "UTC offset of every day / month / year boundary")
+    r.functions = []
+    r.bounds = "every path of the five bodies (loop-free); chrono calls opaque, data flow of the returned value"
+    out = [r]
+    q = ctx.q
+    for unit in ("hour", "day", "week", "month", "year"):
+        b = Builder(ctx, "datetime-time_bucketing-{impl#0}-bucket_%s." % unit, f"CalendarTimeBucketer::bucket_{unit}", {})
+        E = b.E
+        if E is None:
+            r.status = "inconclusive"
+            r.notes.append(b.err)
+            return out
+        r.functions.append(f"CalendarTimeBucketer::bucket_{unit}")
+        if not E.returns:
+            r.status = "inconclusive"
+            r.notes.append(f"bucket_{unit}: no return")
+            return out
+        for (_n, reach, env) in E.returns:
+            res, _ = q.check(reach, domain=E.domain)
+            r.queries += 1
+            if res != z3.sat:
+                continue
+            src = " ".join(E.trace(env.get(0), env, depth=14) | {sym.describe(env.get(0))})
+            utc = re.search(r"naive_utc|with_timezone\(&?Utc", src)
+            local = re.search(r"date_naive|naive_local", src)
+            placed = re.search(r"and_local_timezone", src) and re.search(r"DateTime(::<.*?>)?::timezone", src)
+            if utc or not local or not placed:
+                r.status = "violated"
+                r.witness = {"what": f"bucket_{unit} builds the bucket start from "
+                                     + ("the UTC view of the instant (" + utc.group(0) + ")" if utc else
+                                        "something other than the local date" if not local else
+                                        "a start that is not localised in the instant's own zone")
+                                     + ": near a boundary the bucket belongs to the wrong " + unit,
+                             "span": "src/shared/datetime/time_bucketing.rs", "call": f"bucket_{unit}", "path": [], "model": {}}
+                return out
+    r.nontrivial = True
+    return out
+
+
 def obligations(ctx):
     out = []
+    out += calendar_view(ctx)
     out += epoch_heuristic(ctx)
     out += json_number_paths(ctx)
     for oid, needle, label, what in SITES:
